@@ -1215,6 +1215,9 @@ impl Vault {
             return Ok(());
         }
 
+        // Grant TTLs bind every access decision, not only the ones made by get()/list()
+        self.cleanup_expired_grants();
+
         let secret_node = self.secret_node_key(key);
 
         if AccessController::check_path_with_permission_verified(
@@ -1241,6 +1244,9 @@ impl Vault {
         if requester == Self::ROOT {
             return true;
         }
+
+        // Grant TTLs bind every access decision, not only the ones made by get()/list()
+        self.cleanup_expired_grants();
 
         let secret_node = self.secret_node_key(key);
         AccessController::get_permission_level_verified(
@@ -1272,6 +1278,9 @@ impl Vault {
         if requester == Self::ROOT {
             return Some(Permission::Admin);
         }
+
+        // Grant TTLs bind every access decision, not only the ones made by get()/list()
+        self.cleanup_expired_grants();
 
         let secret_node = self.secret_node_key(key);
         AccessController::get_permission_level_verified(
